@@ -83,10 +83,11 @@ def compare_pipeline(p, g):
         out.append(("copies", "C20", "the library copied the value %s times (bound %d: only a SharedFuture's state may be "
                     "copied from); for a value type that owns heap memory every copy is an allocation beyond the one block per step" % (
                         g["copies"], o["copies"])))
+    own = ("C03", "C12") if lazy else ("C03",)   # an abandoned / cancelled Task releasing its functors is also C12's statement
     if g["leak"] != "0":
-        out.append(("leak", "C03", "allocation balance %s after the pipeline is quiescent" % g["leak"]))
+        out.append(("leak", own, "allocation balance %s after the pipeline is quiescent" % g["leak"]))
     if g["flive"] != "0":
-        out.append(("functor", "C03", "%s functor captures still alive after the pipeline is quiescent" % g["flive"]))
+        out.append(("functor", own, "%s functor captures still alive after the pipeline is quiescent" % g["flive"]))
     return out
 
 
@@ -115,7 +116,8 @@ def check_pipeline(rep, cfgs, want, tier, crash_key=None):
         cells = {}
         for i, p in enumerate(progs):
             for field, prop, msg in compare_pipeline(p, res.get(i)):
-                if prop != "*" and prop not in want:
+                props = prop if isinstance(prop, tuple) else (prop,)
+                if prop != "*" and not (set(props) & set(want)):
                     continue
                 key = crash_key(p["prog"]) if (field == "crash" and crash_key) else cell_key(p["prog"], field)
                 cells.setdefault(key, []).append((p, res.get(i), msg))
